@@ -12,9 +12,14 @@ verus! {
 pub mod shims {
     use super::*;
     //@ include prelude/dnow_shim.rs
+    // abstract collaborators (no extensionality: two values are not provably equal)
+    #[verifier::external_body]
     pub struct FlexiLoggerError { _o: () }
+    #[verifier::external_body]
     pub struct FileLogWriterBuilder { _o: () }
+    #[verifier::external_body]
     pub struct FileLogWriterConfig { _o: () }
+    #[verifier::external_body]
     pub struct LogfileSelector { _o: () }
 }
 pub mod state_handle {
@@ -76,14 +81,32 @@ pub mod state_handle {
             ensures r == plain_write_result(buffer@),
         { unimplemented!() }
         #[verifier::external_body]
-        pub(super) fn flush(&self) -> std::io::Result<()> { unimplemented!() }
+        pub(super) fn flush(&self) -> (r: std::io::Result<()>) ensures r == sh_flush_result(), sh_flushed() { unimplemented!() }
         #[verifier::external_body]
-        pub(super) fn shutdown(&self) { unimplemented!() }
+        pub(super) fn shutdown(&self) ensures sh_shut() { unimplemented!() }
+        #[verifier::external_body]
+        pub(super) fn reset(&self, flwb: &FileLogWriterBuilder) -> (r: Result<(), FlexiLoggerError>) ensures r == sh_reset_result(flwb) { unimplemented!() }
+        #[verifier::external_body]
+        pub(super) fn config(&self) -> (r: Result<FileLogWriterConfig, FlexiLoggerError>) ensures r == sh_config_result() { unimplemented!() }
+        #[verifier::external_body]
+        pub(super) fn reopen_outputfile(&self) -> (r: Result<(), FlexiLoggerError>) ensures r == sh_reopen_result(), sh_reopened() { unimplemented!() }
+        #[verifier::external_body]
+        pub(super) fn rotate(&self) -> (r: Result<(), FlexiLoggerError>) ensures r == sh_rotate_result(), sh_rotated() { unimplemented!() }
         #[verifier::external_body]
         pub(super) fn existing_log_files(&self, selector: &LogfileSelector) -> (r: Result<Vec<PathBuf>, FlexiLoggerError>)
             ensures r == sh_elf_result(selector)
         { unimplemented!() }
     }
+    /// result oracles and token facts ("the call happened": only the callee's ensures establishes them) of the forwarded operations
+    pub uninterp spec fn sh_flush_result() -> std::io::Result<()>;
+    pub uninterp spec fn sh_flushed() -> bool;
+    pub uninterp spec fn sh_shut() -> bool;
+    pub uninterp spec fn sh_reset_result(b: &FileLogWriterBuilder) -> Result<(), FlexiLoggerError>;
+    pub uninterp spec fn sh_config_result() -> Result<FileLogWriterConfig, FlexiLoggerError>;
+    pub uninterp spec fn sh_reopen_result() -> Result<(), FlexiLoggerError>;
+    pub uninterp spec fn sh_reopened() -> bool;
+    pub uninterp spec fn sh_rotate_result() -> Result<(), FlexiLoggerError>;
+    pub uninterp spec fn sh_rotated() -> bool;
     /// oracle: the state handle's listing for a selector (unit `handle`)
     pub uninterp spec fn sh_elf_result(selector: &LogfileSelector) -> Result<Vec<PathBuf>, FlexiLoggerError>;
 }
@@ -112,6 +135,22 @@ pub mod file_log_writer {
     //@   ret r
     //@   props C16
     //@   ens[FileLogWriter::existing_log_files.post] r == sh_elf_result(selector)
+    //@ fn src/writers/file_log_writer.rs impl FileLogWriter / fn reset
+    //@   ret r
+    //@   props C18
+    //@   ens[FileLogWriter::reset.post] r == sh_reset_result(flwb)
+    //@ fn src/writers/file_log_writer.rs impl FileLogWriter / fn config
+    //@   ret r
+    //@   props C18
+    //@   ens[FileLogWriter::config.post] r == sh_config_result()
+    //@ fn src/writers/file_log_writer.rs impl FileLogWriter / fn reopen_outputfile
+    //@   ret r
+    //@   props C18
+    //@   ens[FileLogWriter::reopen_outputfile.post] r == sh_reopen_result() && sh_reopened()
+    //@ fn src/writers/file_log_writer.rs impl FileLogWriter / fn rotate
+    //@   ret r
+    //@   props C08
+    //@   ens[FileLogWriter::rotate.post] r == sh_rotate_result() && sh_rotated()
     //@ fn src/writers/file_log_writer.rs impl FileLogWriter / fn plain_write
     //@   ret r
     //@   props C15
@@ -137,9 +176,26 @@ pub mod file_log_writer {
     //@   props C13,C02
     //@   ens[FileLogWriter::max_log_level.post] r == self.ceiling()
     //@ fn src/writers/file_log_writer.rs impl LogWriter for FileLogWriter / fn flush
+    //@   ret r
     //@   props C04
+    //@   ens[FileLogWriter::flush.post] r == sh_flush_result() && sh_flushed()
     //@ fn src/writers/file_log_writer.rs impl LogWriter for FileLogWriter / fn shutdown
     //@   props C04
+    //@   ens[FileLogWriter::shutdown.post] sh_shut()
+    //@ fn src/writers/file_log_writer.rs impl LogWriter for FileLogWriter / fn reopen_output
+    //@   ret r
+    //@   props C18
+    //@   ens[FileLogWriter::reopen_output.post] r == sh_reopen_result() && sh_reopened()
+    //@ fn src/writers/file_log_writer.rs impl LogWriter for FileLogWriter / fn rotate
+    //@   ret r
+    //@   rename rotate_as_log_writer
+    //@   props C08
+    //@   ens[LogWriter_for_FileLogWriter::rotate.post] r == sh_rotate_result() && sh_rotated()
+    // C04: dropping the writer shuts it down (flushes)
+    //@ fn src/writers/file_log_writer.rs impl Drop for FileLogWriter / fn drop
+    //@   rename drop_impl
+    //@   props C04
+    //@   ens[FileLogWriter::drop.post] sh_shut()
     }
 }
 }
